@@ -91,6 +91,17 @@ def _tr(items, flags, k, at_start):
                 # can only hold when nothing precedes: first item of a match attempt at position 0
                 if not (at_start and _nothing_before(items, pos)):
                     rest = NONE
+            elif av == sc.AT_BOUNDARY:
+                # \b: decided from the item before it, if that item always ends in a word character (then the next character
+                # must not be one) or always ends in a non-word character (then the next character must be one)
+                prev = _ends_in_word(items[pos - 1]) if pos > 0 else None
+                starts_word = z3.Concat(WORD, z3.Star(ANY))
+                if prev is True:
+                    rest = z3.Intersect(rest, z3.Complement(starts_word))
+                elif prev is False:
+                    rest = z3.Intersect(rest, starts_word)
+                else:
+                    raise RxUnsupported('\\b after an item of unknown last character')
             else:
                 raise RxUnsupported(av)
         elif op in (sc.ASSERT, sc.ASSERT_NOT):
@@ -102,6 +113,36 @@ def _tr(items, flags, k, at_start):
         else:
             raise RxUnsupported(op)
     return rest
+
+
+def _ends_in_word(item):
+    """True: every match of the item ends in a word character; False: in a non-word character; None: unknown"""
+    op, av = item
+    if op == sc.LITERAL:
+        ch = chr(av)
+        return ch.isalnum() or ch == '_'
+    if op == sc.CATEGORY:
+        return {sc.CATEGORY_WORD: True, sc.CATEGORY_DIGIT: True, sc.CATEGORY_NOT_WORD: False, sc.CATEGORY_SPACE: False}.get(av)
+    if op == sc.IN:
+        if av and av[0][0] == sc.NEGATE:
+            return None
+        vals = {_ends_in_word(x) for x in av}
+        return vals.pop() if len(vals) == 1 else None
+    if op == sc.RANGE:
+        lo, hi = chr(av[0]), chr(av[1])
+        return True if (lo.isalnum() and hi.isalnum()) else None
+    if op in (sc.MAX_REPEAT, sc.MIN_REPEAT):
+        lo, _, sub = av
+        if lo >= 1 and len(sub) >= 1:
+            return _ends_in_word(list(sub)[-1])
+        return None
+    if op == sc.SUBPATTERN:
+        sub = list(av[3])
+        return _ends_in_word(sub[-1]) if sub else None
+    if op == sc.BRANCH:
+        vals = {(_ends_in_word(list(b)[-1]) if len(b) else None) for b in av[1]}
+        return vals.pop() if len(vals) == 1 else None
+    return None
 
 
 def _nothing_before(items, pos):
